@@ -400,3 +400,49 @@ def native_samples(reg, rnd, n):
                 j2["params"][name] = val
             jobs.append(j2)
     return jobs
+
+
+def extra_obligations(mods, tier, seed):
+    """what the contracts above prove for the base classes must also hold for the objects the public factories actually return (subclasses
+    may override a proved method): executed on the real host classes (BOUNDED enumeration of factory spellings x provider values)"""
+    import time
+    from contracts.c08 import real
+    S = real("Reduino.Sensors")
+    out = []
+    t0 = time.time()
+    bad, n = [], 0
+    values = [0, 0.0, 12.25, 399.5, 400, 400.5, 1000, 123456.75]
+    makers = {"Ultrasonic(7, 8)": lambda **k: S.Ultrasonic(7, 8, **k), "Ultrasonic(7, 8, sensor='HC-SR04')": lambda **k: S.Ultrasonic(7, 8, sensor="HC-SR04", **k),
+              "Ultrasonic(7, 8, model='HC-SR04')": lambda **k: S.Ultrasonic(7, 8, model="HC-SR04", **k)}
+    for cname in ("HCSR04UltrasonicSensor", "UltrasonicSensor"):
+        import sys as _sys
+        mod = _sys.modules.get("Reduino.Sensors.Ultrasonic")
+        if mod is not None and hasattr(mod, cname):
+            cls = getattr(mod, cname)
+            makers[f"{cname}(7, 8)"] = (lambda cls: (lambda **k: cls(7, 8, **k)))(cls)
+    for mname, mk in makers.items():
+        for v in values:
+            n += 1
+            calls = []
+            try:
+                got = mk(distance_provider=lambda v=v: (calls.append(1), v)[1]).measure_distance()
+                if got != float(v) or not isinstance(got, float) or len(calls) != 1:
+                    bad.append({"factory": mname, "provider_value": v, "measure_distance": got, "provider_calls": len(calls)})
+                got2 = mk(default_distance=v).measure_distance()
+                if got2 != float(v):
+                    bad.append({"factory": mname, "default_distance": v, "measure_distance": got2})
+            except Exception as ex:
+                bad.append({"factory": mname, "value": v, "error": f"{type(ex).__name__}: {ex}"})
+        for v in (-0.5, -1):
+            n += 1
+            try:
+                mk(distance_provider=lambda v=v: v).measure_distance()
+                bad.append({"factory": mname, "provider_value": v, "problem": "a negative reading was not refused"})
+            except ValueError:
+                pass
+            except Exception as ex:
+                bad.append({"factory": mname, "value": v, "error": f"{type(ex).__name__}: {ex}"})
+    out.append({"name": "C20/factories/ultrasonic-objects-obey-the-base-contract", "status": "discharged" if not bad else "sat", "backend": "bounded-native", "bounded": True,
+                "where": f"{n} (factory spelling, value) runs: measure_distance() returns exactly the provider's / default value once, negatives are refused",
+                "time": round(time.time() - t0, 3), "replay": {"bad": bad[:4]}, "replay_confirmed": bool(bad)})
+    return out
